@@ -194,6 +194,8 @@ func mutate(r *common.Rng, format string, bs []byte) []byte {
 }
 
 func genFuzz(out *common.Out, r *common.Rng, k int) {
+	wire.NamedStatusOnly = true
+	defer func() { wire.NamedStatusOnly = false }()
 	if r.Chance(1, 25) {
 		kinds := []string{"ts", "pt", "pm", "ips"}
 		n := r.Intn(40)
@@ -234,6 +236,7 @@ func genFuzz(out *common.Out, r *common.Rng, k int) {
 	var bs []byte
 	for try := 0; try < 4 && bs == nil; try++ {
 		v := wire.Gen(r, rec)
+		wire.TrimMaps(v)
 		guarded("fuzz seed encode", func() error {
 			b, err := encode(rec, format, v)
 			if err == nil {
@@ -248,6 +251,7 @@ func genFuzz(out *common.Out, r *common.Rng, k int) {
 			for _, f := range other.Formats {
 				if f == format {
 					v := wire.Gen(r, other)
+					wire.TrimMaps(v)
 					guarded("fuzz seed encode", func() error {
 						if b, err := encode(other, format, v); err == nil && r.Chance(1, 4) {
 							bs = b
